@@ -63,6 +63,11 @@ def run(ctx):
     ctx.floor("E-FREELIST.count", "node-count bookkeeping obligations", n, 3)
     ctx.explain("E-EVENT.gc-order: Manager::gc sweeps every inner-node level before the terminal table (terminals "
                 "referenced only by dead inner nodes become unreferenced during the level sweep).")
+    ctx.explain("E-EVENT (gc bracket): gc() of both managers takes gc_ongoing.try_lock first, collects exactly on the edge where the lock "
+                "was obtained (returns 0 otherwise), bumps the epoch before removing nodes, brackets the sweep with pre_gc / post_gc and "
+                "unlocks.")
+    eevent.check_manager(ctx, F, "oxidd_manager_index")
+    eevent.check_manager(ctx, F, "oxidd_manager_pointer")
     eevent.check_gc_sweep_order(ctx, F, "oxidd_manager_index")
     eevent.check_gc_sweep_order(ctx, F, "oxidd_manager_pointer")
     if ctx.tier == "thorough":
